@@ -3,7 +3,7 @@
 use crate::{
     hist,
     hybscn::{Hyb, ST, judge},
-    types::{Case, Op, Res},
+    types::{Case, Op, Res, check_value},
 };
 
 /// Reads every key of the universe through the public API and judges what comes back.
@@ -44,6 +44,7 @@ pub async fn end_of_workload(h: &mut Hyb) {
                 }
             }
         }
+        "C04" => c04_crash_enumeration(h).await,
         _ => {}
     }
 }
@@ -51,6 +52,7 @@ pub async fn end_of_workload(h: &mut Hyb) {
 pub fn post(case: &Case) {
     let _ = Op::Clear;
     match case.property.as_str() {
+        "C04" => c04_post(case),
         "C12" => c12(case),
         "C15" => c15(case),
         _ => {}
@@ -508,4 +510,333 @@ fn tombstones_lost_uncached() -> Vec<(u64, u64)> {
         let now = d.parts.first().map(|p| parse(p)).unwrap_or_default();
         ever.difference(&now).copied().collect()
     })
+}
+
+// ---------------------------------------------------------------------------------------------------------------
+// C04: recovery after a crash at any point is consistent.
+
+#[derive(Clone, Debug)]
+struct AckedOp {
+    /// version inserted (Some) or a delete (None)
+    ver: Option<u32>,
+    /// the version counter when the op happened (deletes: versions below this are older than the delete)
+    next_ver_at: u32,
+    /// event time from which the op is covered by a completed wait()/close(): u64::MAX if never
+    acked_at: u64,
+    at: u64,
+}
+
+/// What the recorded history says about each key's disk-tier operations, for crash points at time `t`.
+fn acked_ops(case: &Case, evs: &[hist::Ev]) -> std::collections::BTreeMap<u64, Vec<AckedOp>> {
+    use std::collections::BTreeMap;
+    let hmode = case.get("hmode") as u8;
+    let handoffs = ST.with(|s| s.borrow().handoffs.clone());
+    // barriers: (inv, ret)
+    let mut barriers = vec![];
+    let mut inv = None;
+    for e in evs {
+        match e.kind {
+            "wait_inv" | "close_inv" => inv = Some(e.seq),
+            "wait_ret" | "close_ret" => {
+                if let Some(i) = inv.take() {
+                    barriers.push((i, e.seq));
+                }
+            }
+            _ => {}
+        }
+    }
+    let ack_time = |submitted_at: u64| barriers.iter().find(|(i, _)| *i > submitted_at).map(|(_, r)| *r).unwrap_or(u64::MAX);
+    let mut out: BTreeMap<u64, Vec<AckedOp>> = BTreeMap::new();
+    let mut next_ver = 0u32;
+    for e in evs {
+        match e.kind {
+            "h_insert" => {
+                next_ver = next_ver.max(e.b as u32);
+            }
+            "origin_done" if e.c == 0 => next_ver = next_ver.max(e.b as u32),
+            "h_remove" => {
+                // the tombstone is submitted synchronously by remove(); it is covered by the next wait()
+                out.entry(e.a).or_default().push(AckedOp { ver: None, next_ver_at: next_ver + 1, acked_at: ack_time(e.seq), at: e.seq });
+            }
+            "submitted" => {
+                // which (key, version) was this? via the hand-off attribution
+                for (k, v, s, _) in handoffs.iter().filter(|(k, _, s, _)| crate::hybscn::hash_of(hmode, *k) == e.a && *s == e.b) {
+                    let _ = s;
+                    // a shed after the submission voids it
+                    let shed = evs.iter().any(|x| x.kind == "shed" && x.a == e.a && x.seq > e.seq && {
+                        // the next submission of the same hash bounds the window
+                        let next_sub = evs.iter().find(|y| y.kind == "submitted" && y.a == e.a && y.seq > e.seq).map(|y| y.seq).unwrap_or(u64::MAX);
+                        x.seq < next_sub
+                    });
+                    if !shed {
+                        out.entry(*k).or_default().push(AckedOp { ver: Some(*v), next_ver_at: *v, acked_at: ack_time(e.seq), at: e.seq });
+                    }
+                }
+            }
+            _ => {}
+        }
+    }
+    out
+}
+
+/// End of the C04 workload: the process dies here. One follow-up execution per crash point rebuilds the device image
+/// (issue-order prefix of the write log plus a page-granular tear of the next write), reopens the store on it with
+/// the real recovery code and reads the whole key universe. Judged post hoc by `c04_post`.
+pub async fn c04_crash_enumeration(h: &mut Hyb) {
+    use crate::simdev;
+    let case = h.case.clone();
+    let thorough = case.get("thorough") != 0;
+    let n = simdev::writes_len();
+    ST.with(|s| s.borrow_mut().crash_writes = n);
+    let pages_of = |m: usize| simdev::DISK.with(|d| d.borrow().writes[m].data.len().div_ceil(simdev::PAGE));
+    let mut points: Vec<(usize, u64)> = vec![];
+    let focus = case.get("focus_tail").max(0) as usize;
+    if thorough {
+        for m in (if focus > 0 { n.saturating_sub(focus) } else { 0 })..=n {
+            points.push((m, 0));
+            if m < n {
+                let pages = pages_of(m);
+                if pages >= 2 {
+                    if pages <= 6 {
+                        for mask in 1..((1u64 << pages) - 1) {
+                            points.push((m, mask));
+                        }
+                    } else {
+                        for _ in 0..8 {
+                            points.push((m, (crate::choice::io_draw(1 << 30) as u64) & ((1u64 << pages.min(60)) - 1)));
+                        }
+                    }
+                }
+            }
+        }
+    } else {
+        points.push((n, 0));
+        for _ in 0..7 {
+            if n == 0 {
+                break;
+            }
+            let m = crate::choice::io_draw(n);
+            let pages = pages_of(m);
+            let mask = if pages >= 2 && crate::choice::io_draw(2) == 0 { (crate::choice::io_draw(1 << 30) as u64) & ((1u64 << pages.min(60)) - 1) } else { 0 };
+            points.push((m, mask));
+        }
+    }
+    points.sort();
+    points.dedup();
+    for (j, (m, mask)) in points.into_iter().enumerate() {
+        let case = case.clone();
+        crate::run::push_follow_up(
+            format!("recovery at crash point {m}/{n} mask {mask:#x}"),
+            Box::new(move || recover_on_prefix(case, j as u64, m, mask, n)),
+        );
+    }
+    // the process dies: whatever was in flight never completes
+    crate::run::phase_done();
+    h.shutdown(false).await;
+}
+
+/// Runs inside its own simulated execution.
+fn recover_on_prefix(case: Case, j: u64, m: usize, mask: u64, n: usize) {
+    use crate::{simdev, types::Tagged};
+    // image = issue-order prefix + tear
+    simdev::DISK.with(|d| {
+        let mut d = d.borrow_mut();
+        let sizes: Vec<usize> = d.parts.iter().map(|p| p.len()).collect();
+        let mut img: Vec<Vec<u8>> = sizes.iter().map(|s| vec![0u8; *s]).collect();
+        for w in d.writes.iter().take(m) {
+            let end = (w.offset + w.data.len()).min(img[w.part].len());
+            img[w.part][w.offset..end].copy_from_slice(&w.data[..end - w.offset]);
+        }
+        if mask != 0 && m < n {
+            let w = d.writes[m].clone();
+            simdev::apply_torn(&mut img, &w, mask);
+        }
+        d.parts = img;
+        d.inflight = 0;
+    });
+    if mask != 0 {
+        hist::fault("torn_write");
+    }
+    hist::fault("crash_point");
+    hist::ev("crash_begin", j, m as u64, mask);
+    let keys = case.get("keys").max(1) as u64;
+    shuttle::future::block_on(async move {
+        let mut h = Hyb { g: crate::hybscn::geo(&case), case: case.clone(), ctl: crate::hybscn::new_ctl(&case), cache: None, held: vec![] };
+        if !h.reopen().await {
+            return;
+        }
+        let cache = h.cache.clone().unwrap();
+        for k in 0..keys {
+            // code: version, or u32::MAX miss, u32::MAX-1 error, u32::MAX-2 garbage, u32::MAX-3 foreign
+            let code: u64 = match cache.get(&k).await {
+                Ok(Some(e)) => match check_value(e.value()) {
+                    Tagged::Ok { key, ver, .. } if key == k => ver as u64,
+                    Tagged::Ok { .. } => (u32::MAX - 3) as u64,
+                    Tagged::Garbage => (u32::MAX - 2) as u64,
+                },
+                Ok(None) => u32::MAX as u64,
+                Err(_) => (u32::MAX - 1) as u64,
+            };
+            hist::ev("crash_get", j, k, code);
+        }
+        hist::ev("crash_end", j, 0, 0);
+        drop(cache);
+        crate::run::phase_done();
+        h.shutdown(false).await;
+    });
+}
+
+pub fn c04_post(case: &Case) {
+    use crate::simdev;
+    let evs = hist::events_clone();
+    let n = ST.with(|s| s.borrow().crash_writes);
+    let writes: Vec<simdev::WriteRec> = simdev::DISK.with(|d| d.borrow().writes.iter().take(n).cloned().collect());
+    let ops = acked_ops(case, &evs);
+    let handoffs = ST.with(|s| s.borrow().handoffs.clone());
+    if std::env::var("VERIF_DEBUG").is_ok() {
+        eprintln!("[c04] writes {n}, keys with ops {}, handoffs {}", ops.len(), ST.with(|s| s.borrow().handoffs.len()));
+        for (k, v) in ops.iter().take(3) {
+            eprintln!("[c04] key {k}: {v:?}");
+        }
+    }
+    let versions: std::collections::BTreeMap<u64, std::collections::BTreeSet<u32>> =
+        ST.with(|s| s.borrow().model.iter().map(|(k, m)| (*k, m.versions.keys().copied().collect())).collect());
+    let g = crate::hybscn::geo(case);
+    let first_block = if g.tomb { 1 } else { 0 };
+    let is_clean = |w: &simdev::WriteRec| w.part >= first_block && w.offset == 0 && w.data.len() == simdev::PAGE && w.data.iter().all(|b| *b == 0);
+    let mut cur: Option<(u64, usize, u64)> = None;
+    let mut regress_cache: std::collections::BTreeMap<(usize, u64), bool> = Default::default();
+    let mut ended: std::collections::BTreeSet<u64> = Default::default();
+    for e in evs.iter().filter(|e| e.kind == "crash_end") {
+        ended.insert(e.a);
+    }
+    for e in &evs {
+        match e.kind {
+            "crash_begin" => {
+                cur = Some((e.a, e.b as usize, e.c));
+                if !ended.contains(&e.a) {
+                    // the recovery never got to the point of serving lookups (a panic is reported separately)
+                    hist::probe("c04_recovery_incomplete");
+                }
+            }
+            "crash_get" => {
+                let Some((j, m, mask)) = cur else { continue };
+                if j != e.a {
+                    continue;
+                }
+                let (k, code) = (e.b, e.c);
+                let t = if m < n { writes[m].issue_seq } else { u64::MAX };
+                hist::probe("c04_key_judged");
+                let got: Result<u32, ()> = if code == u32::MAX as u64 {
+                    Err(())
+                } else if code == (u32::MAX - 1) as u64 {
+                    continue;
+                } else if code == (u32::MAX - 2) as u64 {
+                    hist::violation("C04", "garbage-value-after-crash", format!("crash point {m}/{n} mask {mask:#x}: key {k} reads bytes nobody inserted"), &[]);
+                    continue;
+                } else if code == (u32::MAX - 3) as u64 {
+                    hist::violation("C04", "foreign-value-after-crash", format!("crash point {m}/{n} mask {mask:#x}: key {k} reads another key's value"), &[]);
+                    continue;
+                } else {
+                    Ok(code as u32)
+                };
+                if let Ok(ver) = got {
+                    if !versions.get(&k).map(|v| v.contains(&ver)).unwrap_or(false) {
+                        hist::violation("C04", "garbage-value-after-crash", format!("crash point {m}/{n}: key {k} reads unknown version v{ver}"), &[]);
+                        continue;
+                    }
+                }
+                if writes.iter().take(m).any(is_clean) {
+                    hist::probe("c04_weak_clause_only");
+                    continue;
+                }
+                let Some(kops) = ops.get(&k) else { continue };
+                let acked: Vec<&AckedOp> = kops.iter().filter(|o| o.acked_at < t).collect();
+                let Some(last) = acked.iter().max_by_key(|o| o.at) else { continue };
+                hist::set_nontrivial();
+                hist::probe("c04_acked_key_judged");
+                // classification aid: does a block of this crash image hold a sequence regression (recovery drops what
+                // follows it)?
+                let regress = *regress_cache.entry((m, mask)).or_insert_with(|| {
+                    let sizes: Vec<usize> = simdev::DISK.with(|d| d.borrow().parts.iter().map(|p| p.len()).collect());
+                    let mut img: Vec<Vec<u8>> = sizes.iter().map(|s| vec![0u8; *s]).collect();
+                    for w in writes.iter().take(m) {
+                        let end = (w.offset + w.data.len()).min(img[w.part].len());
+                        img[w.part][w.offset..end].copy_from_slice(&w.data[..end - w.offset]);
+                    }
+                    if mask != 0 && m < n {
+                        simdev::apply_torn(&mut img, &writes[m], mask);
+                    }
+                    img.iter().skip(first_block).any(|b| {
+                        let (located, _) = crate::parser::scan_block(b, g.blob_index_size);
+                        located.windows(2).any(|w| w[1].sequence < w[0].sequence)
+                    })
+                });
+                let shape_common = vec![
+                    ("tomb", g.tomb.to_string()),
+                    ("torn", (mask != 0).to_string()),
+                    ("blob_pages", case.get("blob_pages").to_string()),
+                    ("sequence_regression_in_a_block", regress.to_string()),
+                ];
+                match (last.ver, got) {
+                    (Some(av), Ok(ver)) => {
+                        if ver < av {
+                            hist::violation(
+                                "C04",
+                                "acked-version-regressed",
+                                format!("crash point {m}/{n} mask {mask:#x} (no block reclaimed): write of ({k},v{av}) was acknowledged as flushed at {} but the key reads older v{ver}", last.acked_at),
+                                &shape_common,
+                            );
+                        }
+                    }
+                    (Some(av), Err(())) => {
+                        let later_delete = kops.iter().any(|o| o.ver.is_none() && o.at > last.at && o.at < t);
+                        if !later_delete {
+                            hist::violation(
+                                "C04",
+                                "acked-version-lost",
+                                format!("crash point {m}/{n} mask {mask:#x} (no block reclaimed): write of ({k},v{av}) was acknowledged as flushed at {} but the key reads as a miss", last.acked_at),
+                                &shape_common,
+                            );
+                        }
+                    }
+                    (None, Ok(ver)) => {
+                        if g.tomb && ver < last.next_ver_at {
+                            // classification aid: was that version handed to the disk tier by a background task whose
+                            // submission came after the delete (the hand-off raced the delete)?
+                            let hmode = case.get("hmode") as u8;
+                            let client_task = evs.iter().find(|e| e.kind == "inv").map(|e| e.task as u64).unwrap_or(u64::MAX);
+                            let raced = handoffs.iter().any(|(hk, hv, hs, ht)| {
+                                *hk == k
+                                    && *hv == ver
+                                    && *ht != client_task
+                                    && evs.iter().any(|e| e.kind == "submitted" && e.a == crate::hybscn::hash_of(hmode, k) && e.b == *hs && e.seq > last.at)
+                            });
+                            let mut shape = shape_common.clone();
+                            shape.push(("background_handoff_after_delete", raced.to_string()));
+                            hist::violation(
+                                "C04",
+                                "acked-delete-undone",
+                                format!("crash point {m}/{n} mask {mask:#x} (no block reclaimed): delete of key {k} was acknowledged as flushed at {} but the key reads v{ver} from before it", last.acked_at),
+                                &shape,
+                            );
+                        } else if !g.tomb {
+                            if let Some(ai) = acked.iter().filter(|o| o.ver.is_some()).max_by_key(|o| o.at) {
+                                if ver < ai.ver.unwrap() {
+                                    hist::violation(
+                                        "C04",
+                                        "acked-version-regressed",
+                                        format!("crash point {m}/{n} mask {mask:#x}: key {k} reads v{ver}, older than acknowledged v{}", ai.ver.unwrap()),
+                                        &shape_common,
+                                    );
+                                }
+                            }
+                        }
+                    }
+                    (None, Err(())) => {}
+                }
+            }
+            _ => {}
+        }
+    }
 }
